@@ -168,16 +168,23 @@ def check_accessors(grid, G, eta, case, rank):
     f = grid.getAllData()
     if tuple(f.shape) != tuple(lay.shape):
         raise OracleFail('accessor', dict(layout=name, rank=rank, why='getAllData shape'))
+    # every answer is asked for first and looked at afterwards: an answer must stay what it was when a
+    # later call is made (a caller may hold several at once)
+    held_idx = [grid.getGlobalIdxVals(i) for i in range(ndim)]
+    held_cv = [grid.getCoordVals(i) for i in range(ndim)]
+    held_gi = {}
+    for idx in itertools.product(*[range(n) for n in f.shape]):
+        held_gi[idx] = grid.getGlobalIndices(*idx)
     glob_idx = []
     for i in range(ndim):
-        gi = list(grid.getGlobalIdxVals(i))
+        gi = list(held_idx[i])
         if len(gi) != f.shape[i]:
             raise OracleFail('accessor', dict(layout=name, rank=rank, axis=i, why='getGlobalIdxVals length',
                                               got=len(gi), want=int(f.shape[i])))
         glob_idx.append(gi)
         d = order[i]
         want_vals = eta[d][gi]
-        cv = np.asarray(grid.getCoordVals(i))
+        cv = np.asarray(held_cv[i])
         if cv.shape != want_vals.shape or not (cv == want_vals).all():
             raise OracleFail('accessor', dict(layout=name, rank=rank, axis=i, why='getCoordVals'))
         en = list(grid.getCoords(i))
@@ -197,7 +204,7 @@ def check_accessors(grid, G, eta, case, rank):
         raise OracleFail('accessor', dict(layout=name, rank=rank, why='data != G[getGlobalIdxVals]',
                                           diff=cm.first_diff(f, sub)))
     for idx in itertools.product(*[range(n) for n in f.shape]):
-        g = grid.getGlobalIndices(*idx)
+        g = held_gi[idx]
         if len(g) != ndim or any(g[order[i]] != glob_idx[i][idx[i]] for i in range(ndim)):
             raise OracleFail('accessor', dict(layout=name, rank=rank, why='getGlobalIndices',
                                               local=list(idx), got=[int(x) for x in g]))
